@@ -50,11 +50,28 @@ CLAIMED = {
         "note": "Trusted: jnp .at[].add/.set, argmax, fori_loop semantics. Not decided: float values; that argmax tie-breaking matches a reference implementation.",
     },
     "C12": {
-        "technique": "static analysis: normal-form identity of each actor objective against a spec expression normalised by the same engine, gradient-site argnums resolved through the loss signature, per-path polynomial evaluation of the weights computed outside the differentiated function, def/loop placement of PPO's old log-probabilities",
+        "technique": "static analysis: normal-form identity of each actor objective against a spec expression normalised by the same engine, gradient-site argnums resolved through the loss signature, per-path polynomial evaluation of the weights computed outside the differentiated function, def/loop placement of PPO's old log-probabilities, symbolic shape inference for the value terms",
         "level": "Decides for all batches / parameters (formula identity and structure): pseudo-loss == -mean(w*log pi) with weights that are plain arguments (constants of the gradient) equal to the documented "
                  "quantities on every path of the three callers; PPO clipped objective incl. min/clip orientation, ratio direction, value and entropy coefficients, logp_old fixed before the epoch "
                  "loop on the same data, GAE argument roles; DPG / SALE / MR.Q / SAC actor and temperature losses incl. signs and alpha = exp(log_alpha); every actor update differentiates exactly the actor.",
-        "note": "Trusted: tfp log_prob/entropy, jnp.minimum/clip. Not decided: float values, batch-size-1 behaviour.",
+        "note": "Trusted: tfp log_prob/entropy, jnp.minimum/clip. R5 adds symbolic shape inference: critic outputs (N,1) are never combined with (N,) vectors without squeeze/flatten. "
+                "Not decided: float values, batch-size-1 behaviour.",
+    },
+    "C07": {
+        "technique": "static analysis: one-iteration symbolic (polynomial) evaluation of loop / scan bodies compared with the defining recurrences, structural reverse-scan symmetry, interprocedural provenance of compute_gae arguments (vmap over the env axis vs env-merging reshape), mask dataflow in the encoder roll-out, symbolic shape inference at masked-loss call sites",
+        "level": "Decides for all sequences, gamma, lambda (identity of the body update): GAE delta/advantage recurrence with carry == output, all inputs reversed and output reversed back, returns = A + v; "
+                 "n-step return uses the old residual discount, cut by (1-d), full horizon, G0=0,c0=1; reward-to-go backwards with result reversed; every compute_gae call sees one trajectory "
+                 "(A2C: vmap over axis 1 of (T,N) data with time-shifted successor values); encoder roll-out terms all weighted by the carried-in cumulative mask, mask updated after use; no outer-product / "
+                 "reshape-as-transpose at masked_mse_loss call sites; per-environment writes use environment indices.",
+        "note": "Trusted: scan/vmap semantics, numpydoc shapes of masked_mse_loss. Known finding: PPO scans GAE over the env-major flattened rollout. Closed-form (vectorised) rewrites of the "
+                "recurrences are outside the enumerated idioms and give ANALYSIS-ERROR (undecided), not a verdict. Not decided: float values.",
+    },
+    "C13": {
+        "technique": "static analysis: sibling agreement of normal forms (distribution parameters of sample / log_probability / entropy incl. inlined self() calls), return-arity vs tuple-unpack check, closed-form density identity for hand-written densities, structural checks of greedy / epsilon-greedy branches in the policy helpers and the four DQN-family loops",
+        "level": "Decides for all observations / parameters (formula identity and structure): within each stochastic head the three methods hand the same (mean, exp(clip(0.5*log_var,-20,2))) resp. the same logits to "
+                 "the tfp distribution (or a hand-written density equal to the diagonal-Gaussian closed form; softmax entropy only in log space); no tuple-unpack of a single-array result; greedy == argmax of row / "
+                 "network output; epsilon-greedy orientation (roll < eps -> uniform random, else greedy); DQN-family selection test, arms (online net, current observation) and the 1.0->0.1 linear schedule.",
+        "note": "Trusted: tfp closed forms for given parameters, U[0,1) draws, argmax. Not decided: numerics of tfp, single-unbatched-observation shape behaviour inside tfp.",
     },
 }
 
